@@ -107,6 +107,28 @@ def run(ck):
                 dir_e = numpy.array(evol.data).copy()
             back = numpy.array(U.data).reshape(Nt, nn, nn)
             bad = []
+            # U.at(t) handed out inside a context and kept until the context is left: it is the slice, and U is restored
+            kt = rng.randint(1, Nt - 1)
+            with eigenbasis_of(ham):
+                held = U.at(time.data[kt])
+                he_in = numpy.array(held.data).copy().reshape(nn, nn)
+                par_in = numpy.array(U.data).copy().reshape(Nt, nn, nn)[kt]
+            if numpy.abs(he_in - Ue[kt]).max() > 1e-9 * sc or numpy.abs(par_in - Ue[kt]).max() > 1e-9 * sc:
+                bad.append(("at(t) inside", float(max(numpy.abs(he_in - Ue[kt]).max(), numpy.abs(par_in - Ue[kt]).max()))))
+            back2 = numpy.array(U.data).reshape(Nt, nn, nn)
+            if numpy.abs(back2 - Um).max() > 1e-9 * sc:
+                bad.append(("restore after at(t)", float(numpy.abs(back2 - Um).max())))
+            if numpy.abs(numpy.array(held.data).reshape(nn, nn) - Um[kt]).max() > 1e-9 * sc:
+                bad.append(("at(t) after the context", float(numpy.abs(numpy.array(held.data).reshape(nn, nn) - Um[kt]).max())))
+            # ... and handed out before the context, read inside together with U
+            held0 = U.at(time.data[kt])
+            with eigenbasis_of(ham):
+                h_in = numpy.array(held0.data).copy().reshape(nn, nn)
+                p_in = numpy.array(U.data).copy().reshape(Nt, nn, nn)[kt]
+            if numpy.abs(h_in - Ue[kt]).max() > 1e-9 * sc or numpy.abs(p_in - Ue[kt]).max() > 1e-9 * sc:
+                bad.append(("at(t) outside, both read inside", float(max(numpy.abs(h_in - Ue[kt]).max(), numpy.abs(p_in - Ue[kt]).max()))))
+            if numpy.abs(numpy.array(U.data).reshape(Nt, nn, nn) - Um).max() > 1e-9 * sc:
+                bad.append(("restore after reading an outside at(t)", float(numpy.abs(numpy.array(U.data).reshape(Nt, nn, nn) - Um).max())))
             if numpy.abs(Ue[0] - numpy.eye(nn)).max() > 1e-9:
                 bad.append(("identity", float(numpy.abs(Ue[0] - numpy.eye(nn)).max())))
             w2 = max(float(numpy.abs(Ue[i] @ Ue[j] - Ue[i + j]).max()) for i in range(Nt) for j in range(Nt - i))
@@ -124,21 +146,31 @@ def run(ck):
         # step by step (jit), with and without saving
         k = rng.randint(1, Nt - 1)
         # second pass: a time axis with as many points as the system has states (array shapes coincide), all its steps
-        for save, jtime, k in ((False, time, k), (True, time, k), (False, TimeAxis(0.0, n, step), n - 1), (True, TimeAxis(0.0, n, step), n - 1)):
+        kfull = Nt - 1
+        cstep = rng.randrange(kfull)
+        for save, jtime, k, inctx in ((False, time, k, None), (True, time, k, None), (False, TimeAxis(0.0, n, step), n - 1, None),
+                                      (True, TimeAxis(0.0, n, step), n - 1, None),
+                                      # one of the incremental steps is taken inside a basis context
+                                      (False, time, kfull, cstep), (True, time, kfull, cstep)):
             try:
                 J = EvolutionSuperOperator(jtime, ham, LF, mode="jit")
                 J.set_dense_dt(Nd)
-                for _ in range(k):
-                    J.calculate_next(save=save)
+                for q_ in range(k):
+                    if inctx is not None and q_ == inctx:
+                        from quantarhei import eigenbasis_of
+                        with eigenbasis_of(ham):
+                            J.calculate_next(save=save)
+                    else:
+                        J.calculate_next(save=save)
                 jd = numpy.array(J.data[k]) if save else numpy.array(J.data)
             except Exception as e:
                 ck.fail("raises:calculate_next", "calculate_next raised %r" % (e,), dict(inp, k=k, save=save))
                 continue
             emit("jitt %d 4 %d %d %s 0 %s %s" % (n, Nd, k, cfrac(step), cv(H), cv(R)), [jd])
-            ck.case(("jit", n, jtime.length, step, Nd, k, save, H.tobytes()), nontrivial=k >= 2, kind="jit", steps=k, save=save,
-                    axis_len_eq_dim=(jtime.length == n))
+            ck.case(("jit", n, jtime.length, step, Nd, k, save, inctx, H.tobytes()), nontrivial=k >= 2, kind="jit", steps=k, save=save,
+                    axis_len_eq_dim=(jtime.length == n), step_in_context=(inctx is not None))
             if numpy.abs(jd - data[k]).max() > 1e-9 * sc:
-                ck.fail("jit-vs-all", "step-by-step calculation differs from calculating all at once", dict(inp, k=k, save=save, jit_axis_length=jtime.length),
+                ck.fail("jit-vs-all" + (":step-in-context" if inctx is not None else ""), "step-by-step calculation differs from calculating all at once", dict(inp, k=k, save=save, jit_axis_length=jtime.length, step_inside_context=inctx),
                         float(numpy.abs(jd - data[k]).max()))
         # refinement: Nd vs 2Nd within the sum of the truncation bounds
         Lv = SY.gksl_superop(numpy, H, Ks, rates)
